@@ -212,6 +212,18 @@ fn part_blackbox(bytes: &[u8], stats: &mut Stats) -> Verdict {
         }
         _ => format!("go depth 64 movetime {}", t_ms),
     };
+    // standard go tokens this engine may or may not implement (nodes, movestogo, mate): a go with a
+    // move time or clock must come back in time whatever else the line says
+    let go = if s.chance(20) {
+        let extra = match s.below(3) {
+            0 => format!("nodes {}", *s.pick(&[1_000_000u64, 6_000_000, 50_000_000])),
+            1 => format!("movestogo {}", 1 + s.below(40)),
+            _ => format!("mate {}", 1 + s.below(6)),
+        };
+        if go.starts_with("go movetime") && s.bool() { format!("go {} {}", extra, &go[3..]) } else { format!("{} {}", go, extra) }
+    } else {
+        go
+    };
     let warm_depth = 1 + s.below(5) as u8;
     let warm = s.chance(45) && crate::script::cheap_search(&p, warm_depth, 400_000);
     let mut script = Vec::new();
@@ -226,6 +238,14 @@ fn part_blackbox(bytes: &[u8], stats: &mut Stats) -> Verdict {
             2 => format!("go depth {} movetime {}", warm_depth, *s.pick(&[1500u64, 3000, 6000])),
             _ => format!("go depth {} wtime 200000 btime 200000 winc 0 binc 0", warm_depth),
         });
+        if s.chance(20) {
+            // ... or a node budget of its own (standard token; ignored by an engine without it)
+            let n = *s.pick(&[200_000u64, 6_000_000, 50_000_000]);
+            if let Some(l) = script.last_mut() {
+                l.push_str(&format!(" nodes {}", n));
+            }
+            stats.class("blackbox_after_an_earlier_search_with_a_nodes_token");
+        }
         if script.last().map(|l| l.contains("time")).unwrap_or(false) {
             stats.class("blackbox_after_an_earlier_timed_search_that_ended_early");
         }
